@@ -1,6 +1,8 @@
 use std::str::FromStr;
 
-use emmylua_parser::{LuaAstNode, LuaAstToken, LuaBlock, LuaChunk, LuaDocTagDiagnostic};
+use emmylua_parser::{
+    LuaAstNode, LuaAstToken, LuaBlock, LuaChunk, LuaDocTagDiagnostic, LuaSyntaxKind,
+};
 use rowan::TextRange;
 
 use crate::{
@@ -32,6 +34,25 @@ fn analyze_diagnostic_disable(
     diagnostic: LuaDocTagDiagnostic,
 ) -> Option<()> {
     let comment = analyzer.comment.clone();
+    // A block that contains nothing but comments has no `Block` node: the comment then hangs
+    // directly below the statement/closure that owns the (empty) block. Its enclosing block is
+    // that empty block, not the block around the statement, so there is nothing to disable.
+    if let Some(parent) = comment.syntax().parent()
+        && matches!(
+            parent.kind().into(),
+            LuaSyntaxKind::DoStat
+                | LuaSyntaxKind::WhileStat
+                | LuaSyntaxKind::RepeatStat
+                | LuaSyntaxKind::IfStat
+                | LuaSyntaxKind::ElseIfClauseStat
+                | LuaSyntaxKind::ElseClauseStat
+                | LuaSyntaxKind::ForStat
+                | LuaSyntaxKind::ForRangeStat
+                | LuaSyntaxKind::ClosureExpr
+        )
+    {
+        return Some(());
+    }
     let owner_block = comment.ancestors::<LuaBlock>().next()?;
     let owner_block_range = owner_block.get_range();
     let is_file_disable = owner_block.get_parent::<LuaChunk>().is_some();
